@@ -5,6 +5,23 @@
 use crate::cfg::*;
 use crate::rng::Rng;
 
+thread_local! {
+    static SCALE: std::cell::Cell<bool> = std::cell::Cell::new(false);
+}
+
+/// Called first by every property's `generate`: draws whether this case belongs to the
+/// *scale stratum* (hundreds of samples, wide dense layers, long histories, many loops).
+/// About one case in seventy; such cases cost 100-1000x a normal one.
+pub fn begin_case(rng: &mut Rng) -> bool {
+    let scale = rng.chance(0.015);
+    SCALE.with(|s| s.set(scale));
+    scale
+}
+
+pub fn scale() -> bool {
+    SCALE.with(|s| s.get())
+}
+
 #[derive(Clone, Debug)]
 pub struct GenOpts {
     pub image: bool,
@@ -124,7 +141,7 @@ pub const ALL_ACCS: [Acc; 5] = [Acc::Add, Acc::Subtract, Acc::Multiply, Acc::Ove
 /// A feedback block whose layer list maps `input` to the same shape.
 pub fn gen_feedback(rng: &mut Rng, opts: &GenOpts, input: ShapeCfg, max_loops: usize) -> Option<LayerCfg> {
     let mut layers = Vec::new();
-    let loops = rng.range(1, max_loops);
+    let loops = if scale() && rng.chance(0.5) { rng.range(6, 12) } else { rng.range(1, max_loops) };
     let inskips = rng.chance(0.5);
     // output skips need at least one earlier repetition (the library averages over an
     // empty list otherwise)
@@ -244,7 +261,7 @@ pub fn gen_net(rng: &mut Rng, opts: &GenOpts) -> NetCfg {
     let input = if opts.image && (opts.conv || opts.deconv || opts.maxpool) {
         ShapeCfg::Image(rng.range(1, 2), rng.range(3, 6), rng.range(3, 6))
     } else {
-        ShapeCfg::Flat(rng.pick(&[2usize, 3, 4, 5, 9]))
+        ShapeCfg::Flat(if scale() && rng.chance(0.4) { rng.pick(&[30usize, 65, 100]) } else { rng.pick(&[2usize, 3, 4, 5, 9]) })
     };
     let mut layers: Vec<LayerCfg> = Vec::new();
     let mut cur = input;
@@ -283,7 +300,7 @@ pub fn gen_net(rng: &mut Rng, opts: &GenOpts) -> NetCfg {
             2 => gen_maxpool(rng, cur),
             3 => gen_feedback(rng, opts, cur, 5),
             _ => Some(LayerCfg::Dense {
-                out: rng.pick(&[1usize, 2, 3, 4, 4, 5, 9]),
+                out: if scale() && rng.chance(0.6) { rng.pick(&[16usize, 25, 32, 48, 64, 65, 70, 100, 130]) } else { rng.pick(&[1usize, 2, 3, 4, 4, 5, 9]) },
                 act: act(rng),
                 bias: rng.chance(0.6),
                 dropout: dropout(rng, opts),
@@ -476,6 +493,10 @@ pub fn gen_data(rng: &mut Rng, net: &NetCfg, n: usize) -> Data {
 
 /// Sizes biased towards chunk boundaries of the parallel evaluation paths.
 pub fn eval_size(rng: &mut Rng) -> usize {
+    if scale() {
+        let r = rng.range(300, 1200);
+        return rng.pick(&[r, r, 640, 641, 1023, 1024]);
+    }
     match rng.below(10) {
         0 => 1,
         1 => rng.range(2, 8),
